@@ -16,6 +16,15 @@ for delimiter in reversed('|!"\'=+'):  # start with most common delimiters
     verb_delimiters = delimiter + verb_delimiters.replace(delimiter, '')
 
 
+# LaTeX-special characters and their escaped forms; applied in a single pass,
+# so that the braces of '\\textbackslash{}' are not escaped again
+escape_table = str.maketrans({
+    '\\': '\\textbackslash{}',
+    '$': '\\$', '#': '\\#', '{': '\\{', '}': '\\}',
+    '&': '\\&', '_': '\\_', '%': '\\%', '^': '\\^{}',
+})
+
+
 class LaTeXRenderer(BaseRenderer):
     def __init__(self, *extras, **kwargs):
         """
@@ -78,11 +87,7 @@ class LaTeXRenderer(BaseRenderer):
         return self.render_inner(token)
 
     def render_raw_text(self, token, escape=True):
-        return (token.content.replace('$', '\\$').replace('#', '\\#')
-                             .replace('{', '\\{').replace('}', '\\}')
-                             .replace('&', '\\&').replace('_', '\\_')
-                             .replace('%', '\\%').replace('^', '\\^{}')
-               ) if escape else token.content
+        return token.content.translate(escape_table) if escape else token.content
 
     def render_heading(self, token):
         inner = self.render_inner(token)
